@@ -6,6 +6,7 @@ import (
 	"regexp"
 	"sort"
 	"strconv"
+	"strings"
 	"time"
 
 	"helm.sh/helm/v4/pkg/action"
@@ -19,7 +20,7 @@ import (
 // ChainStep is one step of a C13 chain (spec/ValuesChain.tla).
 type ChainStep struct {
 	Op     string `json:"op"`   // install | upgrade | rollback
-	Mode   string `json:"mode"` // default | reset | reuse | rtr
+	Mode   string `json:"mode"` // default | reset | reuse | rtr, or several joined by "+"
 	Vals   Tree   `json:"vals"`
 	Chart  int    `json:"chart"`  // 1-based index into Defaults
 	Target int    `json:"target"` // rollback only
@@ -163,13 +164,16 @@ func RunChain(c *Chain) (obs ChainObs) {
 				up.Namespace = scen.RelNS
 				up.Timeout = 5 * time.Second
 				up.WaitStrategy = kube.HookOnlyStrategy
-				switch s.Mode {
-				case "reset":
-					up.ResetValues = true
-				case "reuse":
-					up.ReuseValues = true
-				case "rtr":
-					up.ResetThenReuseValues = true
+				// mode: the value flags of this upgrade joined by "+" (several may be given at once)
+				for _, fl := range strings.Split(s.Mode, "+") {
+					switch fl {
+					case "reset":
+						up.ResetValues = true
+					case "reuse":
+						up.ReuseValues = true
+					case "rtr":
+						up.ResetThenReuseValues = true
+					}
 				}
 				if s.Fail {
 					env.FailRes = func(_, id string) bool { return id == "probe" }
